@@ -312,7 +312,7 @@ func (fc *FCtx) specEval(n *SNode, env *Env) Val {
 			bv := Val{T: vn, S: s, GoT: t}
 			e2 = e2.with(b.Name, bv)
 			if t != nil {
-				if w := fc.U.WF(bv); w != "true" {
+				if w := fc.U.WFShallow(bv); w != "true" {
 					guards = append(guards, w)
 				}
 			}
@@ -524,6 +524,7 @@ func (fc *FCtx) specCall(n *SNode, env *Env) Val {
 					for _, a := range args {
 						ts = append(ts, a.T)
 					}
+					fc.unfoldOnce(sf, args, env)
 					return Val{T: app("spec_"+sf.Name, ts...), S: fc.specRet(sf)}
 				}
 				oos("spec: %s.%s is not a declared key function", fn.Args[0].Name, fn.Name)
@@ -896,6 +897,7 @@ func (fc *FCtx) specCall(n *SNode, env *Env) Val {
 			}
 			ts = append(ts, a.T)
 		}
+		fc.unfoldOnce(sf, args, env)
 		return Val{T: app("spec_"+sf.Name, ts...), S: fc.specRet(sf)}
 	}
 	// application of a pure Go function that is under contract: uninterpreted symbol + its ensures
@@ -1174,4 +1176,58 @@ func (fc *FCtx) typeFromExpr(ex ast.Expr, pkg *packages.Package) types.Type {
 		}
 	}
 	return nil
+}
+
+// unfoldOnce: for a RECURSIVE spec function, every application that appears in a contract clause also gets its
+// one-step unfolding as a ground (or, under binders, universally quantified) fact. The quantified defining axiom can
+// then be left out of a solver query (the "lite" variant), which avoids e-matching loops through the recursion.
+func (fc *FCtx) unfoldOnce(sf *SpecFn, args []Val, env *Env) {
+	if sf.Body == nil || fc.unfolding || !specMentions(sf.Body, sf.Name) {
+		return
+	}
+	fc.unfolding = true
+	defer func() { fc.unfolding = false }()
+	pkg := fc.E.pkgs[sf.Pkg]
+	benv := &Env{fc: fc, st: &State{vars: map[types.Object]Val{}, ghost: map[string]Val{}}, pkg: pkg, names: map[string]Val{}, bound: map[string]Val{}}
+	var ts []string
+	for i, p := range sf.Params {
+		_, pt := fc.resolveSpecType(p.Type, pkg)
+		a := args[i]
+		if a.GoT == nil {
+			a.GoT = pt
+		}
+		benv.bound[p.Name] = a
+		ts = append(ts, a.T)
+	}
+	body := fc.specEval(sf.Body, benv)
+	appl := app("spec_"+sf.Name, ts...)
+	fact := fmt.Sprintf("(= %s %s)", appl, body.T)
+	// only ground applications are unfolded: under a binder the unfolding would itself be a quantified fact
+	// whose instances create ever smaller applications (the matching loop this is meant to avoid)
+	for _, tok := range strings.FieldsFunc(appl, func(r rune) bool { return r == ' ' || r == '(' || r == ')' }) {
+		if strings.HasPrefix(tok, "q_") || strings.HasPrefix(tok, "sp_") || strings.HasPrefix(tok, "qk_") {
+			return
+		}
+	}
+	for _, f := range fc.pureFacts {
+		if f == fact {
+			return
+		}
+	}
+	fc.pureFacts = append(fc.pureFacts, fact)
+}
+
+func specMentions(n *SNode, name string) bool {
+	if n == nil {
+		return false
+	}
+	if n.Op == "call" && len(n.Args) > 0 && n.Args[0].Op == "id" && n.Args[0].Name == name {
+		return true
+	}
+	for _, a := range n.Args {
+		if specMentions(a, name) {
+			return true
+		}
+	}
+	return false
 }
